@@ -83,6 +83,9 @@ type trans struct {
 	bodies   map[string]string
 	pre      []string
 	tmpN     int
+	externs  map[string]bool   // functions kept as parameters (fields of Env)
+	extSigs  map[string]string // Env field -> Lean type
+	extOrder []string
 }
 
 type funcCtx struct {
@@ -148,6 +151,8 @@ func (t *trans) leanType(e ast.Expr) string {
 			return "URL"
 		case "http.Request":
 			return "HTTPRequest"
+		case "etree.Element":
+			return "Element"
 		}
 		t.failf("unsupported type %s", t.src(x))
 		return "Unit"
@@ -226,6 +231,23 @@ func isPointer(ty types.Type) bool {
 	}
 	_, ok := ty.Underlying().(*types.Pointer)
 	return ok
+}
+
+func (t *trans) zeroValue(e ast.Expr) string {
+	lt := t.leanType(e)
+	switch {
+	case lt == "String":
+		return `""`
+	case lt == "Bool":
+		return "false"
+	case lt == "Int":
+		return "(0 : Int)"
+	case lt == "GoError" || strings.HasPrefix(lt, "(Option "):
+		return "none"
+	case strings.HasPrefix(lt, "(List "):
+		return "[]"
+	}
+	return "(default : " + lt + ")"
 }
 
 // ---------------------------------------------------------------- expressions
@@ -341,6 +363,11 @@ func (t *trans) expr(e ast.Expr) string {
 		return t.binary(x)
 	case *ast.IndexExpr:
 		return "(← index " + t.expr(x.X) + " " + t.expr(x.Index) + ")"
+	case *ast.CompositeLit:
+		// a value of an error type (`ErrBadStatus{…}`): only its being an error matters to the callers we translate
+		if id, ok := x.Type.(*ast.Ident); ok && strings.HasPrefix(id.Name, "Err") {
+			return "(some " + leanStr(id.Name) + ")"
+		}
 	case *ast.CallExpr:
 		return t.call(x)
 	}
@@ -411,6 +438,13 @@ func (t *trans) call(c *ast.CallExpr) string {
 			return "(" + t.expr(c.Args[0]) + ".length : Int)"
 		case "panic":
 			return "(← (Outcome.panic " + t.expr(c.Args[0]) + " : Outcome Unit))"
+		case "append":
+			if len(c.Args) == 2 && c.Ellipsis == token.NoPos {
+				return "(" + t.expr(c.Args[0]) + " ++ [" + t.expr(c.Args[1]) + "])"
+			}
+		}
+		if t.externs[f.Name] {
+			return t.externCall(f.Name, "", nil, c)
 		}
 		if _, ok := t.specs[f.Name]; ok {
 			t.need(f.Name)
@@ -470,6 +504,9 @@ func (t *trans) call(c *ast.CallExpr) string {
 						t.touchStruct(rn)
 						return "(← " + t.expr(f.X) + "." + f.Sel.Name + " " + t.args(c.Args) + ")"
 					}
+					if t.externs[f.Sel.Name] {
+						return t.externCall(f.Sel.Name, rn, f.X, c)
+					}
 					if sp, ok := t.specs[f.Sel.Name]; ok && sp.recv == rn {
 						t.need(f.Sel.Name)
 						if sp.mutRecv {
@@ -498,6 +535,68 @@ func (t *trans) call(c *ast.CallExpr) string {
 	}
 	t.failf("%s: unsupported call %s", t.cur.name, t.src(c))
 	return "default"
+}
+
+// externCall: a call of a function that stays outside the translation (XML, signatures, decryption): it becomes a field
+// of `Env`, a function of its arguments. `unmarshalElement(el, &v)` fills `v`: the field returns the value and the error.
+func (t *trans) externCall(name, recvType string, recv ast.Expr, c *ast.CallExpr) string {
+	fd := t.funcs[name]
+	if recvType != "" {
+		fd = t.funcs[recvType+"."+name]
+	}
+	if fd == nil {
+		t.failf("%s: external %s has no declaration", t.cur.name, name)
+		return "default"
+	}
+	if name == "unmarshalElement" && len(c.Args) == 2 {
+		u, ok := c.Args[1].(*ast.UnaryExpr)
+		if !ok || u.Op != token.AND {
+			t.failf("%s: unmarshalElement into something else than &variable", t.cur.name)
+			return "default"
+		}
+		id, ok := u.X.(*ast.Ident)
+		if !ok {
+			t.failf("%s: unmarshalElement into something else than &variable", t.cur.name)
+			return "default"
+		}
+		tn, _ := namedOf(t.info.Types[u.X].Type)
+		field := "unmarshalElement_" + tn
+		t.addExtern(field, "(Option Element) → Outcome ("+t.leanType(ast.NewIdent(tn))+" × GoError)")
+		t.tmpN++
+		tmp := fmt.Sprintf("call%d'", t.tmpN)
+		t.pre = append(t.pre, "let "+tmp+" := (← env."+field+" "+t.expr(c.Args[0])+")", leanIdent(id.Name)+" := "+tmp+".1")
+		t.cur.mutable[id.Name] = true
+		return tmp + ".2"
+	}
+	var parts []string
+	args := ""
+	if recvType != "" {
+		parts = append(parts, t.leanType(ast.NewIdent(recvType)))
+		r := t.expr(recv)
+		if isPointer(t.info.Types[recv].Type) && !t.isRecv(recv) {
+			r = t.derefd(recv)
+		}
+		args = r + " "
+	}
+	for _, f := range fd.Type.Params.List {
+		n := len(f.Names)
+		if n == 0 {
+			n = 1
+		}
+		for i := 0; i < n; i++ {
+			parts = append(parts, t.leanType(f.Type))
+		}
+	}
+	parts = append(parts, "Outcome "+t.resultType(fd.Type.Results))
+	t.addExtern(name, strings.Join(parts, " → "))
+	return "(← env." + name + " " + args + t.args(c.Args) + ")"
+}
+
+func (t *trans) addExtern(field, sig string) {
+	if _, ok := t.extSigs[field]; !ok {
+		t.extSigs[field] = sig
+		t.extOrder = append(t.extOrder, field)
+	}
 }
 
 func leanIdent(n string) string {
@@ -546,6 +645,10 @@ func (t *trans) envVar(name string) {
 									return
 								}
 							}
+						}
+						if strings.HasPrefix(t.src(vs.Values[i]), "errors.New(") {
+							t.envVars[name] = "GoError"
+							return
 						}
 						// time.Duration expressions (`time.Second * 90`) have an external type
 						if strings.Contains(t.src(vs.Values[i]), "time.") {
@@ -655,7 +758,11 @@ func (t *trans) stmt1(o *out, ind int, s ast.Stmt) {
 				if i < len(vs.Values) {
 					t.declare(o, ind, n.Name, t.expr(vs.Values[i]))
 				} else {
-					t.declare(o, ind, n.Name, "(default : "+t.leanType(vs.Type)+")")
+					kw := "let "
+					if t.cur.mutable[n.Name] {
+						kw = "let mut "
+					}
+					o.line(ind, kw+leanIdent(n.Name)+" : "+t.leanType(vs.Type)+" := "+t.zeroValue(vs.Type))
 				}
 			}
 		}
@@ -841,6 +948,16 @@ func mutatedVars(body *ast.BlockStmt) map[string]bool {
 				}
 			}
 		}
+		// a variable whose address is handed to a call may be written by it (`unmarshalElement(el, &v)`)
+		if c, ok := n.(*ast.CallExpr); ok {
+			for _, a := range c.Args {
+				if u, ok := a.(*ast.UnaryExpr); ok && u.Op == token.AND {
+					if id, ok := u.X.(*ast.Ident); ok {
+						m[id.Name] = true
+					}
+				}
+			}
+		}
 		return true
 	})
 	return m
@@ -936,7 +1053,20 @@ func (t *trans) function(name string) {
 	if sp.mutRecv {
 		o.line(1, "let mut "+ctx.recv+" := "+ctx.recv)
 	}
-	t.block(&o, 1, &ast.BlockStmt{List: body})
+	var paramNames []string
+	for _, f := range fd.Type.Params.List {
+		for _, n := range f.Names {
+			paramNames = append(paramNames, n.Name)
+		}
+	}
+	var bo out
+	t.block(&bo, 1, &ast.BlockStmt{List: body})
+	for _, n := range paramNames {
+		if ctx.mutable[n] {
+			o.line(1, "let mut "+leanIdent(n)+" := "+leanIdent(n))
+		}
+	}
+	o.b.WriteString(bo.b.String())
 	// a body whose last statement is not a return (void functions) needs a final value
 	if n := len(body); n == 0 || !endsInReturn(body[n-1]) {
 		o.line(1, "return "+t.retExpr(nil))
@@ -992,7 +1122,8 @@ func (t *trans) leanTypeOf(ty types.Type, where string) string {
 func translate(repo string, p *pkgFiles, outPath string) {
 	t := &trans{p: p, structs: map[string]*ast.StructType{}, ifaces: map[string]*ast.InterfaceType{}, named: map[string]ast.Expr{},
 		funcs: map[string]*ast.FuncDecl{}, specs: map[string]transSpec{}, usedF: map[string]map[string]bool{}, usedM: map[string]map[string]bool{},
-		envVars: map[string]string{}, done: map[string]bool{}, bodies: map[string]string{}}
+		envVars: map[string]string{}, done: map[string]bool{}, bodies: map[string]string{},
+		externs: map[string]bool{"validateSignature": true, "decryptElement": true, "unmarshalElement": true, "findChildren": true}, extSigs: map[string]string{}}
 	var files []*ast.File
 	for _, fn := range sortedFileNames(p) {
 		f := p.files[fn]
@@ -1041,6 +1172,9 @@ func translate(repo string, p *pkgFiles, outPath string) {
 		{fn: "validateAudienceRestriction", recv: "ServiceProvider"},
 		{fn: "validateAssertion", recv: "ServiceProvider"},
 		{fn: "validateLogoutResponse", recv: "ServiceProvider"},
+		{fn: "parseAssertion", recv: "ServiceProvider"},
+		{fn: "parseEncryptedAssertion", recv: "ServiceProvider"},
+		{fn: "parseResponse", recv: "ServiceProvider"},
 		{fn: "getACSEndpoint", recv: "IdpAuthnRequest", mutRecv: true},
 		{fn: "Validate", recv: "IdpAuthnRequest", mutRecv: true, anchor: "mustHaveDestination :="},
 	}
@@ -1061,17 +1195,6 @@ func translate(repo string, p *pkgFiles, outPath string) {
 	var b strings.Builder
 	b.WriteString("/- GENERATED by /verif/extract (trans.go) from the current source of /repo — do not edit. -/\n")
 	b.WriteString("import SamlVerif.Model.GoSem\n\nset_option linter.unusedVariables false\n\nnamespace SamlVerif.Trans\nopen SamlVerif SamlVerif.GoSem\n\n")
-	// Env
-	b.WriteString("/-- package-level variables the translated functions read -/\nstructure Env where\n")
-	var evs []string
-	for n := range t.envVars {
-		evs = append(evs, n)
-	}
-	sort.Strings(evs)
-	for _, n := range evs {
-		fmt.Fprintf(&b, "  %s : %s\n", n, t.envVars[n])
-	}
-	b.WriteString("  timeNow : Int\n\n")
 	// structures, dependencies first
 	emittedS := map[string]bool{}
 	var emitS func(name string, stack map[string]bool)
@@ -1119,7 +1242,7 @@ func translate(repo string, p *pkgFiles, outPath string) {
 		for _, l := range lines {
 			b.WriteString(l + "\n")
 		}
-		b.WriteString("\n")
+		b.WriteString("  deriving Inhabited\n\n")
 	}
 	// touching types may add structures: iterate to a fixed point
 	for changed := true; changed; {
@@ -1145,8 +1268,23 @@ func translate(repo string, p *pkgFiles, outPath string) {
 	for _, n := range snames {
 		emitS(n, map[string]bool{})
 	}
+	// Env: package-level variables and the functions that stay outside the translation
+	b.WriteString("/-- package-level variables the translated functions read, and the functions they call that are not translated\n    (XML, signatures, decryption): those are parameters -/\nstructure Env where\n")
+	var evs []string
+	for n := range t.envVars {
+		evs = append(evs, n)
+	}
+	sort.Strings(evs)
+	for _, n := range evs {
+		fmt.Fprintf(&b, "  %s : %s\n", n, t.envVars[n])
+	}
+	b.WriteString("  timeNow : Int\n")
+	for _, n := range t.extOrder {
+		fmt.Fprintf(&b, "  %s : %s\n", n, t.extSigs[n])
+	}
+	b.WriteString("\n")
 	for _, n := range t.order {
-		b.WriteString(t.bodies[n])
+		b.WriteString(strings.Replace(t.bodies[n], "(env : Env)", "(env : Env)", 1))
 		b.WriteString("\n")
 	}
 	sort.Strings(t.fails)
